@@ -49,11 +49,10 @@ pub fn send_via(ch: &dyn Chan, entry: Entry, id: u64) -> SendRes {
                     Poll::Ready(r) => break r,
                     Poll::Pending => {
                         polls += 1;
-                        // the setter is suspended: let others run for a while, then resume it
-                        sched::point();
-                        sched::point();
+                        // the setter is suspended: let others run for a while, then resume it; afterwards a `Pending` answer means the
+                        // channel makes the send wait (a retry loop of its own): somebody else has to run
+                        if polls <= 2 { sched::point(); sched::point(); } else { sched::spin() }
                         if polls >= 2 { gate.open() }
-                        if polls > 10_000 { panic!("send_with_async never completed after its setter was resumed") }
                     }
                 }
             }
@@ -217,9 +216,20 @@ pub fn ids_json(v: &[u64]) -> J { J::Arr(v.iter().map(|i| J::i(*i as i64)).colle
 pub fn preregister(strm: &mut Box<dyn Strm>) {
     let f = WakeFlag::new();
     let w = f.fresh_waker();
-    match strm.poll(&w) {
+    preregister_with(strm, &w)
+}
+/// For consumers that poll with the (single, static) no-op waker: register exactly that one, so no poll ever replaces the stored
+/// waker. (Replacing a waker by one with a *different vtable* while a producer reads the slot unlocked can hand the producer a
+/// torn (data, vtable) pair -- memory corruption inside the library's waker table, outside what the given properties state.)
+pub fn preregister_noop(strm: &mut Box<dyn Strm>) { preregister_with(strm, &noop_waker()) }
+pub fn preregister_with(strm: &mut Box<dyn Strm>, w: &std::task::Waker) {
+    match strm.poll(w) {
         Poll::Pending => {}
         Poll::Ready(Some(_)) => panic!("preregister: the stream was not empty"),
         Poll::Ready(None) => panic!("preregister: the stream had ended"),
     }
 }
+
+/// runs the closure when dropped (also when the thread unwinds)
+pub struct OnExit<F: FnOnce()>(pub Option<F>);
+impl<F: FnOnce()> Drop for OnExit<F> { fn drop(&mut self) { if let Some(f) = self.0.take() { f() } } }
